@@ -94,6 +94,14 @@ MODES = {
 MODE_NAMES = sorted(MODES)
 
 
+def fix_mode(stages, mode):
+    """assert / defaultIfEmpty look at the first element and hand the collection on: a RE-ITERABLE object that reaches
+    them unconverted is legitimately traversed from the start a second time, so these two are fed one-shot iterators"""
+    if any(s[0] in ("assertAny", "defaultIfEmpty") for s in stages) and mode in ("var-feed", "fn-feed", "raw-feed", "rawdoc-feed"):
+        return mode.replace("rawdoc-feed", "doc-iter").replace("-feed", "-iter")
+    return mode
+
+
 def text_of(stages, k, mode="data-iter", conv="camel"):
     t = sc.pipeline_text(MODES[mode][0], stages, probe=True)
     return sc.conv_text(t if k is None else "%s.take(%d)" % (t, k), conv)
@@ -115,7 +123,9 @@ def _run_once(k0, stages, k, mode, timeout, conv="camel"):
         ctx["feed"] = src
     else:
         ctx.register_function(lambda: src, name="feed")
-    o = sc.evaluate(text, data, timeout=timeout, ctx=ctx, eng=None if convert else sc.engine_noconv())
+    # engines with a generous yaql.memoryQuota must consume exactly what engines without one do: sizing is pull-free
+    quota = (k0 + len(text)) % 2 == 0
+    o = sc.evaluate(text, data, timeout=timeout, ctx=ctx, eng=sc.engine_opts(quota=quota, noconv=not convert))
     return o, src, text
 
 
@@ -158,7 +168,7 @@ def grid(run):
         for sg in (("where", P), ("where", ("gt", 2)), ("select", F), ("selectMany", ("pair",)), ("takeWhile", ("lt", 3)),
                    ("skipWhile", ("lt", 3)), ("append", (7, 8)), ("concat", ((7,), (8,))), ("distinct", None), ("distinct", ("mod", 3)),
                    ("zip", ((5, 6, 7),)), ("zip", ((), )), ("accumulate", ("add2",), sc.NOSEED), ("accumulate", ("add2",), 10),
-                   ("memorize",), ("join", (1, 2), ("gt2",), ("add2",)), ("plus", (7,))):
+                   ("memorize",), ("join", (1, 2), ("gt2",), ("add2",)), ("plus", (7,)), ("defaultIfEmpty", (7,)), ("assertAny",)):
             out.append((0, [sg], k))
     for k in ks:
         out.append((0, [("attr",)], k))
@@ -193,6 +203,8 @@ def gen_case(rng):
         stages.append(("attr",))
     for _ in range(rng.randrange(1, 5)):
         sg, kind, shape, n = sc.gen_stage(rng, kind, shape, n, allow_terminal=False, streaming_only=True)
+        if sc.memo_clash(stages, sg):
+            continue
         stages.append(sg)
     if rng.random() < 0.15:
         t = rng.choice(["first", "any", "all", "indexOf", "indexWhere", "contains"])
@@ -336,7 +348,8 @@ SCOPE = {"select": "select", "where": "where", "selectMany": "selectMany", "skip
          "enumerate": "enumerate", "zip": "zip", "accumulate": "accumulate", "insert": "insert", "insertMany": "insertMany",
          "delete": "delete", "replace": "replace", "replaceMany": "replaceMany", "slice": "slice", "memorize": "memorize",
          "first": "first", "any": "any", "all": "all", "indexOf": "indexOf", "indexWhere": "indexWhere", "join": "join",
-         "contains": "contains", "#operator_+": "plus", "#operator_. (member projection over a collection)": "attr",
+         "contains": "contains", "#operator_+": "plus", "defaultIfEmpty (memorizes its source)": "defaultIfEmpty",
+         "assert (memorizes its source)": "assertAny", "#operator_. (member projection over a collection)": "attr",
          "limit": "take", "filter": "where", "map": "select"}
 
 
@@ -356,6 +369,7 @@ def correspondence(run):
     cases, meta = [], []
     nfixed = len(todo) - run.n(2500, 40000)
     for j, (k0, stages, k, mode) in enumerate(todo):
+        mode = fix_mode(stages, mode)
         o, pulls, ticks, per, text = observe(k0, stages, k, mode)
         if j >= nfixed and o[0] == "cap" and run.rng.random() < 0.8:
             run.count("dropped:most pipelines that never produce k results (cap) are not kept")
@@ -410,7 +424,7 @@ def limit_block(run):
         src = Source(k0)
         sc.TICKS.clear()
         text = "%s.take(%d)" % (sc.pipeline_text("$", stages, probe=True), k)
-        o = sc.evaluate(text, src, timeout=30, eng=sc.engine_with_limit(n))
+        o = sc.evaluate(text, src, timeout=30, eng=sc.engine_opts(limit=n, quota=(k0 + k) % 2 == 0))     # the limit alone and with a quota
         ticks = sum(sc.TICKS.values())
         cap = o[0] == "err" and ("PullCap" in o[2] or "watchdog" in o[2])
         run.case(("limit", n, k0, sc.stages_json(stages), k), nontrivial=k > 0)
@@ -459,7 +473,7 @@ def oracle(run, deep):
     if deep:
         for _ in range(run.n(1500, 10000)):
             k0, stages, k = gen_case(run.rng)
-            mode = run.rng.choice(MODE_NAMES)
+            mode = fix_mode(stages, run.rng.choice(MODE_NAMES))
             o, pulls, ticks, per, text = observe(k0, stages, k, mode)
             extra.append((k0, stages, k, o, pulls, ticks, per, text, mode))
     checked = 0
